@@ -1,12 +1,17 @@
 """Property id -> check function."""
 import json
 
+import conn
+import lin
 import orca
 
 CHECKS = {
     "C01": orca.check,
     "C02": orca.check,
+    "C03": lin.check_c03,
+    "C08": conn.check,
     "C09": orca.check,
+    "C12": lin.check_c12,
 }
 
 
